@@ -345,6 +345,34 @@ TRUSTED_BASE_COMMON = [
     'correspondence harness: SDK doubles in harness/doubles, host clang -O1 ASan+UBSan build of /repo sources, 64-bit host vs 32-bit target',
 ]
 
+
+# ------------------------------------------------------------------------------------------
+# thorough tier: cross-check of the extraction itself — the same cases evaluated by vm_compute inside Coq
+def vm_crosscheck(chk, cases, mres, limit=150, max_bytes=3000):
+    """returns (n_checked, error or None)"""
+    inv_out = {v: k for k, v in chk.OUT.items()}
+    sel = []
+    for c in cases:
+        if sum(len(e[2]) for e in c.evs) > max_bytes or len(c.evs) > 200: continue
+        if c.id not in mres or mres[c.id][0] != 'ok': continue
+        if any(o[0] == 'EXN' or o[0] not in inv_out for o in mres[c.id][1]): continue
+        if any(not all(isinstance(i, int) for i in e[1]) for e in c.evs): continue
+        sel.append(c)
+        if len(sel) >= limit: break
+    if not sel: return 0, None
+    def z(i): return '(%d)' % i if i < 0 else str(i)
+    def wl(k, ints, data): return '(%s, [%s], [%s])' % (z(k), '; '.join(z(i) for i in ints), '; '.join(str(b) for b in data))
+    ins = '; '.join('[' + '; '.join(wl(chk.IN[e[0]], e[1], e[2]) for e in c.evs) + ']' for c in sel)
+    outs = '; '.join('[' + '; '.join(wl(inv_out[o[0]], o[1], o[2]) for o in mres[c.id][1]) + ']' for c in sel)
+    d = os.path.join(CACHE, 'vmc', chk.pid); os.makedirs(d, exist_ok=True)
+    v = os.path.join(d, 'cases.v')
+    open(v, 'w').write('From Coq Require Import List ZArith.\nImport ListNotations.\nFrom V Require Import Base.Iface %s.Model.\nLocal Open Scope Z_scope.\n'
+                       'Definition cases : list (list wire) := [%s].\nDefinition expected : list (list wire) := [%s].\n'
+                       'Goal map main_wire cases = expected. Proof. vm_compute. reflexivity. Qed.\n' % (chk.pid, ins, outs))
+    rc, out, err = sh(['coqc', '-Q', os.path.join(VERIF, 'coq'), 'V', v], cwd=d, timeout=1200)
+    if rc != 0: return len(sel), 'vm_compute of the model disagrees with the extracted OCaml model (or failed): ' + (out + err)[-600:]
+    return len(sel), None
+
 # ------------------------------------------------------------------------------------------
 # generic check runner
 class PropCheck:
@@ -463,6 +491,10 @@ def run_check(chk, argv):
                 d = chk.compare(c, mo, io)
                 if d: disagreements.append((c, d))
         chk.extra_quick(ctx)
+        if tier == 'thorough' and mexe is not None and not a.replay:
+            nvm, verr = vm_crosscheck(chk, cases, mres)
+            ctx['extra']['extraction_crosschecked_by_vm_compute'] = nvm
+            if verr: problems.append('extraction: ' + verr)
         if a.replay:
             c = cases[0]
             print('--- implementation'); [print('  ' + fmt_line(*o)[:200]) for o in ires.get('replay', ('', []))[1]]
